@@ -24,11 +24,13 @@ const (
 	lTop lkind = iota // not yet known (unreached)
 	lConst
 	lBottom // not a constant
+	lRef    // a known SSA value identity (a function value, a locally built table)
 )
 
 type LV struct {
 	K lkind
 	C constant.Value
+	V ssa.Value
 }
 
 func (a LV) String() string {
@@ -37,9 +39,13 @@ func (a LV) String() string {
 		return "T"
 	case lConst:
 		return a.C.ExactString()
+	case lRef:
+		return fmt.Sprintf("ref(%p)", a.V)
 	}
 	return "_"
 }
+
+func refLV(v ssa.Value) LV { return LV{K: lRef, V: v} }
 
 var bottom = LV{K: lBottom}
 
@@ -53,6 +59,12 @@ func meet(a, b LV) LV {
 		return a
 	}
 	if a.K == lBottom || b.K == lBottom {
+		return bottom
+	}
+	if a.K == lRef || b.K == lRef {
+		if a.K == lRef && b.K == lRef && a.V == b.V {
+			return a
+		}
 		return bottom
 	}
 	if sameConst(a.C, b.C) {
@@ -186,7 +198,7 @@ func (fo *Folder) fold(f *ssa.Function, args []LV, depth int) *FoldResult {
 		if lv.K == lTop {
 			nv = old
 		}
-		if !ok || nv.K != old.K || (nv.K == lConst && !sameConst(nv.C, old.C)) {
+		if !ok || nv.K != old.K || (nv.K == lConst && !sameConst(nv.C, old.C)) || (nv.K == lRef && nv.V != old.V) {
 			res.Vals[v] = nv
 			return true
 		}
@@ -308,11 +320,143 @@ func (fo *Folder) operand(res *FoldResult, v ssa.Value) LV {
 	if lv, ok := res.Vals[v]; ok {
 		return lv
 	}
-	switch v.(type) {
-	case *ssa.Global, *ssa.Function, *ssa.Builtin:
+	switch x := v.(type) {
+	case *ssa.Function:
+		return refLV(x)
+	case *ssa.Global, *ssa.Builtin:
 		return bottom
 	}
 	return LV{K: lTop}
+}
+
+// constTable: the contents of a map that is built from constant keys and never modified otherwise:
+// a local `make(map)` followed by constant stores, or a package-level map filled only by the
+// package initialiser. Returns nil when the map is not of that simple kind.
+func (fo *Folder) constTable(res *FoldResult, m ssa.Value) (map[string]LV, bool) {
+	key := func(lv LV) (string, bool) {
+		if lv.K != lConst {
+			return "", false
+		}
+		return lv.C.Kind().String() + ":" + lv.C.ExactString(), true
+	}
+	out := map[string]LV{}
+	collect := func(mk ssa.Value, r *FoldResult, localFold bool) bool {
+		refs := mk.Referrers()
+		if refs == nil {
+			return false
+		}
+		for _, ref := range *refs {
+			switch x := ref.(type) {
+			case *ssa.MapUpdate:
+				if x.Map != mk {
+					return false
+				}
+				var kl, vl LV
+				if kc, ok := x.Key.(*ssa.Const); ok {
+					kl = constOf(kc)
+				} else if localFold {
+					kl = fo.operand(r, x.Key)
+				}
+				switch vv := x.Value.(type) {
+				case *ssa.Const:
+					vl = constOf(vv)
+				case *ssa.Function:
+					vl = refLV(vv)
+				case *ssa.MakeClosure:
+					vl = refLV(vv)
+				default:
+					if localFold {
+						vl = fo.operand(r, x.Value)
+					}
+				}
+				ks, ok := key(kl)
+				if !ok || (vl.K != lConst && vl.K != lRef) {
+					return false
+				}
+				out[ks] = vl
+			case *ssa.Lookup, *ssa.DebugRef:
+			case *ssa.Store:
+				// storing the finished map into its package-level variable
+				if _, isG := x.Addr.(*ssa.Global); !isG || x.Val != mk {
+					return false
+				}
+			case *ssa.Call:
+				if !isBuiltinCall(x, "len") {
+					return false
+				}
+			default:
+				return false
+			}
+		}
+		return true
+	}
+	switch x := m.(type) {
+	case *ssa.MakeMap:
+		if !collect(x, res, true) {
+			return nil, false
+		}
+		return out, true
+	case *ssa.UnOp:
+		g, ok := x.X.(*ssa.Global)
+		if !ok || g.Pkg != fo.P.Pkg {
+			return nil, false
+		}
+		// every store to the global is in an init function and stores a simple map
+		n := 0
+		for _, f := range fo.P.ModFuncs {
+			bad := false
+			instrs(f, func(b *ssa.BasicBlock, i int, in ssa.Instruction) {
+				st, isSt := in.(*ssa.Store)
+				if !isSt || st.Addr != ssa.Value(g) {
+					return
+				}
+				if !isInitFn(f) {
+					bad = true
+					return
+				}
+				mk, isMk := st.Val.(*ssa.MakeMap)
+				if !isMk || !collect(mk, nil, false) {
+					bad = true
+					return
+				}
+				n++
+			})
+			if bad {
+				return nil, false
+			}
+		}
+		// no map update through the global elsewhere
+		for _, f := range fo.P.ModFuncs {
+			bad := false
+			instrs(f, func(b *ssa.BasicBlock, i int, in ssa.Instruction) {
+				if mu, isMu := in.(*ssa.MapUpdate); isMu {
+					if u, isU := mu.Map.(*ssa.UnOp); isU && u.X == ssa.Value(g) {
+						bad = true
+					}
+				}
+			})
+			if bad {
+				return nil, false
+			}
+		}
+		return out, n == 1
+	}
+	return nil, false
+}
+
+func zeroLV(t types.Type) LV {
+	if b, ok := t.Underlying().(*types.Basic); ok {
+		switch {
+		case b.Info()&types.IsBoolean != 0:
+			return constLV(constant.MakeBool(false))
+		case b.Info()&types.IsInteger != 0:
+			return constLV(constant.MakeInt64(0))
+		case b.Info()&types.IsString != 0:
+			return constLV(constant.MakeString(""))
+		}
+		return bottom
+	}
+	return constLV(constant.MakeUnknown())
 }
 
 func (fo *Folder) eval(res *FoldResult, v ssa.Value, depth int) LV {
@@ -320,6 +464,45 @@ func (fo *Folder) eval(res *FoldResult, v ssa.Value, depth int) LV {
 		return constLV(c)
 	}
 	switch x := v.(type) {
+	case *ssa.MakeClosure:
+		return refLV(x)
+	case *ssa.Lookup:
+		if x.CommaOk {
+			return bottom // handled at the Extract
+		}
+		if tab, ok := fo.constTable(res, x.X); ok {
+			kl := fo.operand(res, x.Index)
+			if kl.K == lTop {
+				return kl
+			}
+			if kl.K == lConst {
+				if v, hit := tab[kl.C.Kind().String()+":"+kl.C.ExactString()]; hit {
+					return v
+				}
+				return zeroLV(x.Type())
+			}
+		}
+		return bottom
+	case *ssa.Extract:
+		if lk, ok := x.Tuple.(*ssa.Lookup); ok && lk.CommaOk {
+			if tab, ok := fo.constTable(res, lk.X); ok {
+				kl := fo.operand(res, lk.Index)
+				if kl.K == lTop {
+					return kl
+				}
+				if kl.K == lConst {
+					v, hit := tab[kl.C.Kind().String()+":"+kl.C.ExactString()]
+					if x.Index == 1 {
+						return constLV(constant.MakeBool(hit))
+					}
+					if hit {
+						return v
+					}
+					return zeroLV(x.Type())
+				}
+			}
+		}
+		return bottom
 	case *ssa.BinOp:
 		a, b := fo.operand(res, x.X), fo.operand(res, x.Y)
 		if a.K == lTop || b.K == lTop {
@@ -328,10 +511,20 @@ func (fo *Folder) eval(res *FoldResult, v ssa.Value, depth int) LV {
 		if a.K == lBottom || b.K == lBottom {
 			return bottom
 		}
+		if a.K == lRef || b.K == lRef {
+			// a known non-nil reference compared with nil
+			if (x.Op == token.EQL || x.Op == token.NEQ) && (a.K == lConst && a.C.Kind() == constant.Unknown || b.K == lConst && b.C.Kind() == constant.Unknown) {
+				return constLV(constant.MakeBool(x.Op == token.NEQ))
+			}
+			return bottom
+		}
 		return binop(x.Op, a.C, b.C, x.X.Type())
 	case *ssa.UnOp:
 		a := fo.operand(res, x.X)
 		if x.Op == token.MUL || x.Op == token.ARROW {
+			return bottom
+		}
+		if a.K == lRef {
 			return bottom
 		}
 		if a.K != lConst {
@@ -356,6 +549,9 @@ func (fo *Folder) eval(res *FoldResult, v ssa.Value, depth int) LV {
 		return fo.operand(res, x.X)
 	case *ssa.Convert:
 		a := fo.operand(res, x.X)
+		if a.K == lRef {
+			return bottom
+		}
 		if a.K != lConst {
 			return a
 		}
@@ -378,6 +574,12 @@ func (fo *Folder) eval(res *FoldResult, v ssa.Value, depth int) LV {
 		return bottom
 	case *ssa.Call:
 		cal := calleeOf(x)
+		if cal == nil && !x.Call.IsInvoke() {
+			// a call through a function value whose identity folded (table-driven dispatch)
+			if lv := fo.operand(res, x.Call.Value); lv.K == lRef {
+				cal = fnValue(lv.V)
+			}
+		}
 		if cal == nil || len(cal.Blocks) == 0 || !fo.P.InModule(cal) {
 			return bottom
 		}
@@ -405,6 +607,9 @@ func (fo *Folder) eval(res *FoldResult, v ssa.Value, depth int) LV {
 				return LV{K: lTop}
 			}
 			args = append(args, lv)
+		}
+		if len(args) == len(cal.Params)-1 && cal.Signature.Recv() != nil {
+			args = append([]LV{bottom}, args...) // a bound method value: the receiver is in the closure
 		}
 		sub := fo.fold(cal, args, depth+1)
 		if os.Getenv("FOLD_DEBUG") != "" {
